@@ -71,7 +71,8 @@ inductive Val
 deriving Repr, DecidableEq, BEq
 
 inductive Err
-  | eof                              -- a read or seek returned an error
+  | eof                              -- a read failed with io.EOF (nothing left / `io.CopyN` or `Read` came up short)
+  | ueof                             -- a read failed with io.ErrUnexpectedEOF (`io.ReadFull` got part of what it wanted)
   | invalid (what : String)          -- decoder's own formatted error
   | panic (site : String)            -- Go run-time panic
   | alloc (site : String) (n : Nat)  -- a single `make` of n bytes above the budget
@@ -130,13 +131,25 @@ deriving Repr, DecidableEq
 
 /-! ## reader primitives -/
 
+/-- `io.ReadFull` / `binary.Read` of n bytes: io.EOF when nothing is left, io.ErrUnexpectedEOF when
+    only part of the n bytes is there (create's multi-model loop tells the two apart) -/
 def readN (n : Nat) (r : Rd) : Except Err (Bytes × Rd) :=
+  if n ≤ r.rest.length then .ok (r.rest.take n, ⟨r.rest.drop n, r.pos + n⟩)
+  else if r.rest.length = 0 then .error .eof else .error .ueof
+
+/-- `io.CopyN` / a `Read` loop of n bytes: io.EOF whenever the input is short -/
+def readNCopy (n : Nat) (r : Rd) : Except Err (Bytes × Rd) :=
   if n ≤ r.rest.length then .ok (r.rest.take n, ⟨r.rest.drop n, r.pos + n⟩) else .error .eof
 
 def readUint (be : Bool) (w : Nat) (r : Rd) : Except Err (Nat × Rd) :=
   match readN w r with
   | .ok (bs, r') => .ok (if be then beVal bs else leVal bs, r')
   | .error e => .error e
+
+/-- first field of a struct that one `binary.Read` fetches as `total` bytes -/
+def readUintIn (be : Bool) (w total : Nat) (r : Rd) : Except Err (Nat × Rd) :=
+  if total ≤ r.rest.length then readUint be w r
+  else if r.rest.length = 0 then .error .eof else .error .ueof
 
 def checkAlloc (c : Cfg) (site : String) (n : Nat) : Except Err Unit :=
   match c.budget with
@@ -150,7 +163,7 @@ def readStrV1 (c : Cfg) (r : Rd) : Except Err (Bytes × Rd) := do
   if len ≤ 0 then                                          -- Truncate(-1)
     if c.g.v1StrLen then .error (.invalid "v1 string length") else .error (.panic "v1-string-truncate")
   else do
-    let (bs, r) ← readN len.toNat r
+    let (bs, r) ← readNCopy len.toNat r
     pure (bs.take (bs.length - 1), r)
 
 /-- gguf v2/v3 string via the 16 KiB scratch buffer -/
@@ -158,10 +171,10 @@ def readStrV23 (c : Cfg) (r : Rd) : Except Err (Bytes × Rd) := do
   let (n, r) ← readUint c.be 8 r
   let len := toI64 n
   if len > 16384 then
-    if c.g.strHuge ∧ len.toNat > r.rest.length then .error .eof
+    if c.g.strHuge ∧ len.toNat > r.rest.length then .error .eof       -- CopyN into a growing buffer
     else do
       checkAlloc c "string" len.toNat
-      readN len.toNat r
+      readNCopy len.toNat r
   else if len < 0 then
     if c.g.strNeg then .error (.invalid "string length") else .error (.panic "string-slice-negative")
   else readN len.toNat r
@@ -175,7 +188,7 @@ def discardStr (c : Cfg) (r : Rd) : Except Err (Unit × Rd) := do
   let len := toI64 n
   if len ≤ 0 then pure ((), r)
   else do
-    let (_, r) ← readN len.toNat r
+    let (_, r) ← readNCopy len.toNat r
     pure ((), r)
 
 def scalarWidth (t : Nat) : Option Nat :=
@@ -265,7 +278,9 @@ def readShape (c : Cfg) : Nat → Rd → Except Err (List Nat × Rd)
 def readTensor (c : Cfg) (r : Rd) : Except Err (TInfo × Rd) := do
   let (name, r) ← readStr c r
   let (dims, r) ← readUint c.be 4 r
-  if c.g.dimsHuge ∧ 8 * dims > r.rest.length then .error .eof
+  -- repaired: the dimensions are read one by one until the input runs out
+  if c.g.dimsHuge ∧ 8 * dims > r.rest.length then
+    (if r.rest.length % 8 = 0 then .error .eof else .error .ueof)
   else do
   checkAlloc c "shape" (8 * dims)
   let (shape, r) ← readShape c dims r
@@ -304,7 +319,7 @@ def seekTensors (g : Guards) (align : Nat) : List TInfo → Nat → Except Err N
     let sz := toI64 (tensorSize t.kind t.shape)
     let np : Int := (p : Int) + sz
     if g.negSeek ∧ sz < 0 then .error (.invalid "tensor size")
-    else if np < 0 ∨ np ≥ (two63 : Int) then .error .eof
+    else if np < 0 ∨ np ≥ (two63 : Int) then .error (.invalid "seek")   -- Seek to a negative position
     else seekTensors g align ts np.toNat
 
 def sumParameters (ts : List TInfo) : Nat :=
@@ -326,20 +341,64 @@ def decodeBody (c : Cfg) (numKV numTensor : Nat) (r : Rd) : Except Err Decoded :
 def magicLE : Nat := 0x46554747
 def magicBE : Nat := 0x47475546
 
-/-- `ggml.Decode(rs, maxArraySize)` for gguf containers.  `maxArraySize` as passed by the
-    caller (0 means 1024). -/
-def decode (bs : Bytes) (maxArraySize : Int) (budget : Option Nat := none)
+/-- `ggml.Decode(rs, maxArraySize)` for gguf containers, the reader standing at `r` (file position
+    `r.pos`, `r.rest` still to come).  `maxArraySize` as passed by the caller (0 means 1024). -/
+def decodeFrom (r : Rd) (maxArraySize : Int) (budget : Option Nat := none)
     (g : Guards := Guards.tree) : Except Err Decoded := do
   let maxA := if maxArraySize = 0 then 1024 else maxArraySize
-  let (magic, r) ← readUint false 4 ⟨bs, 0⟩
+  let (magic, r) ← readUint false 4 r
   if magic ≠ magicLE ∧ magic ≠ magicBE then .error (.invalid "invalid file magic")
   else do
     let be := magic = magicBE
     let (version, r) ← readUint be 4 r
     let w := if version = 1 then 4 else 8
-    let (numTensor, r) ← readUint be w r
+    -- both counts are ONE binary.Read of a struct (matters for io.EOF vs io.ErrUnexpectedEOF)
+    let (numTensor, r) ← readUintIn be w (2 * w) r
     let (numKV, r) ← readUint be w r
     decodeBody ⟨be, version, maxA, budget, g⟩ numKV numTensor r
+
+/-- decoding a whole file from its start -/
+def decode (bs : Bytes) (maxArraySize : Int) (budget : Option Nat := none)
+    (g : Guards := Guards.tree) : Except Err Decoded :=
+  decodeFrom ⟨bs, 0⟩ maxArraySize budget g
+
+/-! ## `server/create.go ggufLayers`: an uploaded file may hold several models back to back -/
+
+/-- one layer `ggufLayers` produces -/
+structure GLayer where
+  start : Nat          -- file offset of the section copied into the layer
+  size : Nat           -- bytes in the layer
+  whole : Bool         -- the uploaded blob itself is reused (the decode ended at the file size and started at 0)
+  d : Decoded
+deriving Repr, DecidableEq
+
+/-- the `for offset < stat.Size()` loop.  The file position after a successful `Decode` is the end
+    offset it returns, which is where the next `Decode` starts.  `fuel` only makes the definition
+    structurally recursive: running out of it (`none`) is the explicit outcome "the loop does not
+    terminate" (`ggufLayers_terminates` shows it never happens for the tree's decoder). -/
+def ggufLayersLoop (bs : Bytes) (budget : Option Nat) (g : Guards) :
+    Nat → Nat → List GLayer → Option (Except Err (List GLayer))
+  | 0, offset, acc => if offset < bs.length then none else some (.ok acc)
+  | fuel+1, offset, acc =>
+    if offset < bs.length then
+      match decodeFrom ⟨bs.drop offset, offset⟩ 0 budget g with
+      | .error .eof => some (if acc.isEmpty then .error .eof else .ok acc)      -- errors.Is(err, io.EOF) && len(layers) > 0
+      | .error e => some (.error e)
+      | .ok d =>
+        let n := d.endOffset
+        let whole : Bool := n = bs.length ∧ offset = 0
+        -- otherwise NewLayer(io.NewSectionReader(blob, offset, n)): n bytes from offset, cut at the end of the file
+        let size := if whole then bs.length else min n (bs.length - offset)
+        ggufLayersLoop bs budget g fuel n (acc ++ [⟨offset, size, whole, d⟩])
+    else some (.ok acc)
+
+/-- `detectContentType` on the first 512 bytes (a file shorter than 4 bytes is read zero-extended) + the loop;
+    `none` = the loop does not terminate -/
+def ggufLayers (bs : Bytes) (budget : Option Nat := none) (g : Guards := Guards.tree) :
+    Option (Except Err (List GLayer)) :=
+  let magic := leVal ((bs.take 4) ++ List.replicate (4 - (bs.take 4).length) 0)
+  if magic ≠ magicLE ∧ magic ≠ magicBE then some (.error (.invalid "only gguf supported"))
+  else ggufLayersLoop bs budget g bs.length 0 []
 
 /-! ## encoder -/
 
